@@ -114,9 +114,9 @@ Proof.
 Qed.
 
 (* ---------------------------------------------------------------- Request::get_reply = ref_exec *)
-Lemma get_reply_spec l tx u st r : tx_ok l tx -> req_wf r ->
-  get_reply H l tx (DUnit u) u st r =
-    let '(st', pdu, lg) := ref_exec H (fcode_value (get_function r)) u st (to_spec r) in (Ok (adu l tx u pdu), st', lg).
+Lemma get_reply_spec l tx u h st r : tx_ok l tx -> req_wf r ->
+  get_reply H l tx (DUnit u) h st r =
+    let '(st', pdu, lg) := ref_exec H (fcode_value (get_function r)) h st (to_spec r) in (Ok (adu l tx u pdu), st', lg).
 Proof.
   intros Htx Hwf. destruct r as [[s n]|[s n]|[s n]|[s n]|i b|i v|[s n] bytes|[s n] bytes];
     cbn [req_wf fst snd] in Hwf; cbn [get_reply get_function to_spec ref_exec fst snd fcode_value].
@@ -157,11 +157,11 @@ Proof.
 Qed.
 
 Lemma execute_all_spec r : req_wf r -> broadcast_supported (get_function r) = true ->
-  forall units, execute_all H units r = Ok (apply_all H units (to_spec r)).
+  forall m g, execute_all H m g r = Ok (apply_all H m g (to_spec r)).
 Proof.
-  intros Hwf Hbc. induction units as [|[u st] rest IH]; [reflexivity|].
+  intros Hwf Hbc. induction m as [|[u h] rest IH]; intros g; [reflexivity|].
   cbn [execute_all apply_all]. rewrite execute_spec by assumption. rewrite IH.
-  destruct (apply_all H rest (to_spec r)) as [rest' lg]. reflexivity.
+  destruct (apply_all H rest (sset g h (fst (apply_write H (g h) (to_spec r)))) (to_spec r)) as [g' lg]. reflexivity.
 Qed.
 
 Lemma broadcast_is_write r : broadcast_supported (get_function r) = is_write (to_spec r).
@@ -197,21 +197,21 @@ Proof.
       destruct (authorize a (dest_value (f_dest fr)) (to_spec r)) as [ok alog].
       destruct ok; cbn [negb].
       * destruct (f_dest fr) as [u|] eqn:Ed.
-        -- destruct (lookup u units) as [st|]; [|reflexivity].
+        -- destruct (lookup u (u_map units)) as [h|]; [|reflexivity].
            rewrite get_reply_spec by assumption. rewrite Hfn.
-           destruct (ref_exec H (fcode_value f) u st (to_spec r)) as [[st' pdu] lg]. reflexivity.
+           destruct (ref_exec H (fcode_value f) h (u_store units h) (to_spec r)) as [[st' pdu] lg]. reflexivity.
         -- rewrite broadcast_is_write. destruct (is_write (to_spec r)) eqn:W; [|reflexivity].
            rewrite execute_all_spec by (try assumption; rewrite broadcast_is_write; assumption).
-           destruct (apply_all H units (to_spec r)) as [units' lg]. reflexivity.
+           destruct (apply_all H (u_map units) (u_store units) (to_spec r)) as [g' lg]. reflexivity.
       * unfold reply_with_error_generic. destruct (f_dest fr) as [u|]; cbn [dest_is_broadcast]; [|reflexivity].
         rewrite format_ex_ok by assumption. cbn [ffield_value dest_value lift3]. rewrite Hfn. reflexivity.
     + rewrite P. unfold reply_with_error_generic, is_served.
       destruct (f_dest fr) as [u|]; cbn [dest_is_broadcast lift3]; [|reflexivity].
-      destruct (lookup u units); [|reflexivity].
+      destruct (lookup u (u_map units)); [|reflexivity].
       rewrite format_ex_ok by assumption. reflexivity.
   - rewrite decode_unsupported by assumption. unfold reply_with_error_generic, is_served.
     destruct (f_dest fr) as [u|]; cbn [dest_is_broadcast lift3]; [|reflexivity].
-    destruct (lookup u units); [|reflexivity].
+    destruct (lookup u (u_map units)); [|reflexivity].
     rewrite format_ex_ok by assumption. reflexivity.
 Qed.
 
